@@ -582,6 +582,46 @@ impl Scenario for Sc {
                 if rest != 0 {
                     ctx.fail("parser-rest", &format!("accepted with {} bytes left over (hex {})", rest, w[2]));
                 }
+                if w[1] == "1" {
+                    // accepted with `check_acyclic`: an independent check (Kahn's algorithm over the
+                    // gate → gate-input edges) must find the circuit acyclic
+                    let c = &p.circuit;
+                    let g = c.num_gates();
+                    let mut indeg = vec![0usize; g];
+                    let mut users: Vec<Vec<usize>> = vec![Vec::new(); g];
+                    let mut readable = true;
+                    for k in 0..g {
+                        match c.gate_for_no(k) {
+                            Some(gate) => {
+                                for &x in gate.inputs {
+                                    if let Some(j) = x.get_gate_no() {
+                                        if j < g {
+                                            indeg[k] += 1;
+                                            users[j].push(k);
+                                        }
+                                    }
+                                }
+                            }
+                            None => readable = false,
+                        }
+                    }
+                    let mut stack: Vec<usize> = (0..g).filter(|&k| indeg[k] == 0).collect();
+                    let mut done = 0;
+                    while let Some(k) = stack.pop() {
+                        done += 1;
+                        for &u in &users[k] {
+                            indeg[u] -= 1;
+                            if indeg[u] == 0 {
+                                stack.push(u);
+                            }
+                        }
+                    }
+                    if readable && done != g {
+                        ctx.fail("cyclic-accepted", &format!("accepted with check_acyclic although {} of {} gates lie on or behind a cycle (hex {})", g - done, g, w[2]));
+                    } else {
+                        ctx.count("acyclic-confirmed");
+                    }
+                }
                 match catch_unwind(AssertUnwindSafe(|| show_problem(&p, binary))) {
                     Ok(Ok(s)) => s,
                     Ok(Err(m)) => {
@@ -1064,6 +1104,41 @@ fn generate(cfg: &GenCfg, rng: &mut Rng, w: &mut dyn Write) {
                 emit(w, acyc, &v);
             }
         }
+    }
+    // ASCII files whose AND gates are defined in an arbitrary order and refer to arbitrary gates
+    // (forward, backward, themselves): cycles through every position of the definition order
+    let ncyc = if cfg.thorough { 6000 * scale } else { 600 * scale };
+    for k in 0..ncyc {
+        let i = rng.range(1, 3) as usize;
+        let a = rng.range(2, 7) as usize;
+        let mut def: Vec<usize> = (0..a).collect();
+        rng.shuffle(&mut def);
+        let lit_of_gate = |g: usize| 2 * (i + 1 + g);
+        let mut body = String::new();
+        for v in 1..=i {
+            body.push_str(&format!("{}\n", 2 * v));
+        }
+        let out = lit_of_gate(rng.below(a as u64) as usize) + rng.below(2) as usize;
+        body.push_str(&format!("{}\n", out));
+        let dense = rng.chance(1, 2);
+        for &g in &def {
+            let mut rhs = [0usize; 2];
+            for r in rhs.iter_mut() {
+                let base = if rng.chance(if dense { 3 } else { 1 }, 4) {
+                    lit_of_gate(rng.below(a as u64) as usize)
+                } else if rng.chance(1, 8) {
+                    0
+                } else {
+                    2 * rng.range(1, i as u64) as usize
+                };
+                *r = base + rng.below(2) as usize;
+            }
+            body.push_str(&format!("{} {} {}\n", lit_of_gate(g), rhs[0], rhs[1]));
+        }
+        let file = format!("aag {} {} 0 1 {}\n{}", i + a, i, a, body);
+        writeln!(w, "case cyc-{}", k).unwrap();
+        emit(w, true, file.as_bytes());
+        emit(w, false, file.as_bytes());
     }
     // resource rule and known-finding candidates
     writeln!(w, "case skip-rule").unwrap();
